@@ -240,6 +240,26 @@ func (m *dsim) backend(kind string, files map[string][]byte) (storage.ReadBucket
 			panic(err)
 		}
 		return b, dir
+	case "memsub", "ossub":
+		// the module is a sub directory "mod" of a bigger bucket; siblings whose names extend "mod"
+		// with a character that sorts below '/' must not disturb the walk
+		big := map[string][]byte{
+			"mod-gen/x.proto":  []byte("syntax = \"proto3\";\npackage gen;\n"),
+			"mod.md":           []byte("not the module's doc file\n"),
+			"mod gen/y.proto":  []byte("syntax = \"proto3\";\npackage gen2;\n"),
+			"modx/z.proto":     []byte("syntax = \"proto3\";\npackage gen3;\n"),
+			"LICENSE":          []byte("outer license\n"),
+			"aaa/before.proto": []byte("syntax = \"proto3\";\npackage before;\n"),
+		}
+		for p, c := range files {
+			big["mod/"+p] = c
+		}
+		inner := "mem"
+		if kind == "ossub" {
+			inner = "os"
+		}
+		b, dir := m.backend(inner, big)
+		return storage.MapReadBucket(b, storage.MapOnPrefix("mod")), dir
 	case "tar", "zip":
 		src, _ := storagemem.NewReadBucket(files)
 		var buf bytes.Buffer
@@ -299,12 +319,8 @@ func (m *dsim) digests(ctx context.Context, c cfg, override map[int]map[string][
 		raw, _ := m.backend(kind, files)
 		rw, ok := raw.(storage.ReadWriteBucket)
 		if !ok {
-			// read-only memory bucket: copy into a read-write one so that the wrapper can sit on top
-			mem := storagemem.NewReadWriteBucket()
-			if _, err := storage.Copy(context.Background(), raw, mem); err != nil {
-				panic(err)
-			}
-			rw = mem
+			// a read-only bucket (memory, or a mapped view): the wrapper sits directly on top of it
+			rw = simfs.ReadOnly(raw)
 		}
 		bucket := &simfs.Bucket{S: m.s, U: rw, Name: fmt.Sprintf("d%d", i), PermuteWalk: c.permute, YieldReads: m.faults}
 		var opts []bufmodule.LocalModuleOption
@@ -393,11 +409,11 @@ func Run(tp *tape.Tape, env *engine.Env) *engine.Outcome {
 	}
 	s.Event("case mods=%d files=%v", len(m.mods), simfs.SortedKeys(m.mods[main].files))
 
-	backends := []string{"mem", "os", "tar", "zip"}
+	backends := []string{"mem", "os", "tar", "zip", "memsub", "ossub"}
 	nconf := 3 + tp.Draw("nconf", 4)
 	kinds := map[string]struct{}{}
 	for k := 0; k < nconf; k++ {
-		c := cfg{backend: backends[(k+tp.Draw("backend", 4))%4], permute: tp.Draw("permute", 2) == 1, named: tp.Draw("named", 2) == 1,
+		c := cfg{backend: backends[(k+tp.Draw("backend", 6))%6], permute: tp.Draw("permute", 2) == 1, named: tp.Draw("named", 2) == 1,
 			targeted: tp.Draw("targeted", 2) == 1, permMods: tp.Draw("permmods", 2) == 1}
 		m.faults = tp.Draw("faulty", 4) == 3
 		if m.faults {
@@ -527,7 +543,7 @@ func Run(tp *tape.Tape, env *engine.Env) *engine.Outcome {
 		}
 		want := m.refDigest(main, files)
 		changed := want != ref[main]
-		c := cfg{backend: backends[tp.Draw("mbackend", 4)], permute: tp.Draw("mpermute", 2) == 1, named: true, targeted: true}
+		c := cfg{backend: backends[tp.Draw("mbackend", 6)], permute: tp.Draw("mpermute", 2) == 1, named: true, targeted: true}
 		var got []string
 		var err error
 		m.exec(func(ctx context.Context) { got, err = m.digests(ctx, c, map[int]map[string][]byte{main: files}) })
